@@ -216,7 +216,7 @@ func runPlan(t *testing.T, pl any) *simcore.Result {
 		if sched != nil {
 			steps = sched.Steps()
 		}
-		fmt.Printf("TIMING wall=%v steps=%d choices=%d states=%d kvreads=%d viol=%v known=%v\n", time.Since(t0), steps, choices, len(rn.m.order), rn.w.kv.Reads.Load(), rn.viol != nil, res.Known)
+		fmt.Printf("TIMING wall=%v steps=%d choices=%d states=%d kvreads=%d viol=%v known=%v sh=%d th=%d\n", time.Since(t0), steps, choices, len(rn.m.order), rn.w.kv.Reads.Load(), rn.viol != nil, res.Known, p.K.StateHistory, p.K.TrienodeHistory)
 	}
 	return res
 }
